@@ -71,7 +71,24 @@ def rich_font(draw, max_base=5, kinds=("line", "curve"), with_layers=True, with_
         k2 = [n for n in groups if n.startswith("public.kern2.")]
         val = st.one_of(st.integers(-80, 80), st.sampled_from([-12.5, 7.5]))
         kerning = [list(k) for k in draw(st.lists(st.tuples(st.sampled_from(names + k1), st.sampled_from(names + k2), val), max_size=6, unique_by=lambda t: (t[0], t[1])))]
-    spec = {"info": {"unitsPerEm": 1000, "familyName": "Test", "styleName": "Regular"}, "glyphs": glyphs, "groups": groups, "kerning": kerning, "lib": {}}
+    info = {"unitsPerEm": 1000, "familyName": "Test", "styleName": "Regular"}
+    if with_lib and chance(draw, 1, 2):
+        # list- and dict-valued info attributes that a table builder could modify in place
+        info.update(draw(st.fixed_dictionaries({}, optional={
+            "openTypeOS2Selection": st.sampled_from([[7], [7, 8], [1]]),
+            "openTypeOS2Type": st.sampled_from([[2], [3, 8]]),
+            "openTypeOS2Panose": st.just([2, 0, 5, 3, 0, 0, 0, 0, 0, 0]),
+            "openTypeOS2UnicodeRanges": st.just([0, 1, 2]),
+            "openTypeOS2CodePageRanges": st.just([0, 1]),
+            "openTypeOS2FamilyClass": st.just([1, 2]),
+            "openTypeHeadFlags": st.just([0, 1, 3]),
+            "postscriptBlueValues": st.just([-10, 0, 500, 510]),
+            "postscriptStemSnapH": st.just([80, 90]),
+            "openTypeNameRecords": st.just([{"nameID": 19, "platformID": 3, "encodingID": 1, "languageID": 1033, "string": "Sample"}]),
+            "openTypeGaspRangeRecords": st.just([{"rangeMaxPPEM": 8, "rangeGaspBehavior": [0, 1]}, {"rangeMaxPPEM": 65535, "rangeGaspBehavior": [1]}]),
+            "styleMapStyleName": st.sampled_from(["regular", "bold", "italic"]),
+        })))
+    spec = {"info": info, "glyphs": glyphs, "groups": groups, "kerning": kerning, "lib": {}}
     if with_fea and chance(draw, 2, 3):
         fea = ""
         if chance(draw, 1, 2):
